@@ -1,10 +1,9 @@
-(* CompileStatic6.v — C01: the COMPILE-TIME theorem for fragment 4 (closures as values, lambda bodies of
-   several expressions; port of CompileStatic3.v)
-   (Proofs/Closures6.v): on a well-formed expression, under a header that binds the names sc,
-   compile_expression succeeds, appends code to the lambda under construction, keeps its header,
-   extends the compile-time state and leaves the registers and the table of lexical environments
-   alone.  [lam_static6] additionally exports the shape of a compiled lambda expression (the
-   installed code object, its environment map, the compilation of its body).               *)
+(* CompileStatic6.v — C01: the COMPILE-TIME theorem for fragment 6 (Closures6.v; port of
+   CompileStatic4.v): on a well-formed expression, under a header that binds the names sc,
+   compile_expression succeeds, appends code, keeps the header, extends the compile-time state and
+   leaves the registers and the table of lexical environments alone.  New: (set! x e) with x bound
+   by the header ([cs6_set], from FrameSteps5.compile_set_local).  [lam_static6] exports the shape
+   of a compiled lambda expression.                                                           *)
 From Coq Require Import String Lia FMapPositive.
 From MW Require Import Model.Base Model.F64 Model.Num Model.Datum Model.TransformDef Model.Transform
   Model.VmTypes Model.Heap Model.Gc Model.VmBase Model.Compile Model.Vm
